@@ -4,7 +4,7 @@ tier=${1:-quick}; shift
 ids=${@:-C01 C02 C03 C04 C05 C06 C07 C08 C09 C10 C11 C12 C13 C14 C15 C16 C17 C18 C19 C20}
 for p in $ids; do
   s=$(date +%s)
-  python3-vt /verif/vcheck.py $p --tier $tier > /tmp/run_all_$p.log 2>&1
+  python3-vt "$(dirname "$0")/../vcheck.py" $p --tier $tier > /tmp/run_all_$p.log 2>&1
   rc=$?
   e=$(date +%s)
   echo "$p rc=$rc wall=$((e-s))s $(tail -1 /tmp/run_all_$p.log | cut -c1-160)"
